@@ -4,13 +4,30 @@
 
 usage: tools_seed.py <name> <property> <worktree> [--tier quick|thorough] [--needs "..."]
 """
-import json, os, subprocess, sys, shutil, time
+import json, os, signal, subprocess, sys, shutil, time
+
+# a kill by `timeout` must still undo the patch in /repo (finally blocks run on SystemExit)
+signal.signal(signal.SIGTERM, lambda *_: sys.exit(143))
 
 ENV = dict(os.environ, GOFLAGS="-mod=mod", GOPROXY="off", GOSUMDB="off", GOTOOLCHAIN="local")
 
 def run(cmd, cwd=None, timeout=1800):
-    p = subprocess.run(cmd, shell=True, cwd=cwd, env=ENV, capture_output=True, text=True, timeout=timeout)
-    return p.returncode, p.stdout + p.stderr
+    # own process group, so that a timeout takes the whole tree down (no orphaned checks)
+    p = subprocess.Popen(cmd, shell=True, cwd=cwd, env=ENV, stdout=subprocess.PIPE, stderr=subprocess.STDOUT, text=True, start_new_session=True)
+    try:
+        out, _ = p.communicate(timeout=timeout)
+    except BaseException:
+        try:
+            os.killpg(p.pid, signal.SIGKILL)
+        except ProcessLookupError:
+            pass
+        p.wait()
+        if isinstance(sys.exc_info()[1], subprocess.TimeoutExpired):
+            return 124, "TIMEOUT after %ds" % timeout
+        raise
+    return p.returncode, out
+
+CHECK_TIMEOUT = 1200  # a check that does not finish in 20 minutes on a seeded tree counts as "not detected"
 
 def main():
     name, prop, wt = sys.argv[1:4]
@@ -57,13 +74,15 @@ def main():
     # 5. run the check against /repo with the patch applied
     detected, lines, wall = None, [], 0.0
     if valid:
+        rc, st = run("git -C /repo status --porcelain")
+        assert st.strip() == "", "/repo is not clean"
         rc, o = run(f"git -C /repo apply {out}/patch.diff")
         assert rc == 0, "patch does not apply to /repo: " + o
         try:
             t0 = time.time()
-            rc, o = run(f"timeout 3000 /verif/bin/vcheck run --property {prop} --tier {tier}", cwd="/verif", timeout=3100)
+            rc, o = run(f"/verif/bin/vcheck run --property {prop} --tier {tier}", cwd="/verif", timeout=CHECK_TIMEOUT)
             wall = time.time() - t0
-            lines = [l for l in o.splitlines() if l.startswith(("VIOLATION", "  harness=", "OK ", "INCONCLUSIVE", "TOOL-ERROR", "KNOWN"))][:12]
+            lines = [l for l in o.splitlines() if l.startswith(("VIOLATION", "  harness=", "OK ", "INCONCLUSIVE", "TOOL-ERROR", "KNOWN", "TIMEOUT"))][:12]
             detected = rc == 1 and any(l.startswith("VIOLATION") for l in lines)
             ran.append({"cmd": f"bin/vcheck run --property {prop} --tier {tier} (patch applied to /repo)", "exit": rc, "wall_s": round(wall, 1)})
         finally:
